@@ -58,7 +58,7 @@ def run(ck, replay=None):
         _replay(ck, replay, dbg, rel)
         return RULE
     nshard = 16
-    per_shard = 3 if quick else 40
+    per_shard = 3 if quick else 20
     jobs = []
     labels = []
     for prof, d in (("debug", dbg), ("release", rel)):
